@@ -30,7 +30,8 @@ pub mod repetition {
 }
 pub mod history {
     include!("/repo/src/history.rs");
-    pub mod vh { use super::*; pub fn cell(h: &HistoryTable, f: usize, t: usize) -> i32 { h.scores[f][t] } }
+    pub mod vh { use super::*; pub fn cell(h: &HistoryTable, f: usize, t: usize) -> i32 { h.scores[f][t] }
+        pub fn set_cell(h: &mut HistoryTable, f: usize, t: usize, v: i32) { h.scores[f][t] = v; } }
 }
 pub mod shim;
 pub mod shimvec;
@@ -63,6 +64,8 @@ pub mod search {
         pub fn tt_mut(s: &mut Searcher) -> &mut crate::transposition::TranspositionTable { &mut s.transposition_table }
         pub fn killers(s: &Searcher) -> &crate::killer_moves::KillerMoves { &s.killer_moves }
         pub fn history(s: &Searcher) -> &crate::history::HistoryTable { &s.history }
+        pub fn history_mut(s: &mut Searcher) -> &mut crate::history::HistoryTable { &mut s.history }
+        pub fn killers_mut(s: &mut Searcher) -> &mut crate::killer_moves::KillerMoves { &mut s.killer_moves }
         pub fn quiesce(s: &mut Searcher, b: &Board, alpha: i32, beta: i32) -> i32 { s.search_until_quiet(b, alpha, beta) }
         pub fn is_rep_draw(s: &Searcher, b: &Board) -> bool { s.is_draw_by_repetition(b) }
         pub fn negamax_score(s: &mut Searcher, b: &Board, depth: u8, ply: u8, alpha: i32, beta: i32) -> (i32, Option<Move>) {
